@@ -134,7 +134,40 @@ def _calc_new(h, rng, expect_ok=True):
     return {"op": "calc.new", "h": h, "abs": rng.random() < 0.6, "expect_ok": expect_ok}
 
 
-def gen_program(rng, prop, name, world, tier):
+def gen_mid_clutter(rng, world):
+    """entries that appear in the working directory in the middle of a history (env.clutter)"""
+    system = world["static"]["system"]
+    out = []
+    for _ in range(rng.randint(1, 2)):
+        k = rng.choice(["sysdir", "sysfile_valid", "sysfile_garbage", "constraints", "notes", "results", "default", "inputs", "othersys"])
+        if k == "sysdir":
+            out.append({"name": system, "kind": "dir", "children": [{"name": "POSCAR", "text": "x\n"}]})
+        elif k == "sysfile_valid":
+            out.append({"name": system, "kind": "file", "text": VALID_OTHER_RELATIONS})
+        elif k == "sysfile_garbage":
+            out.append({"name": system, "kind": "file", "text": "this is not = a relation file ((\n"})
+        elif k == "constraints":
+            out.append({"name": "constraints", "kind": "dir", "children": [{"name": system, "text": VALID_OTHER_RELATIONS}]})
+        elif k == "notes":
+            out.append({"name": rng.choice(["notes.txt", ".hidden", "README", "zz_notes_tp.bak"]), "kind": "file", "text": "unrelated\n"})
+        elif k == "results":
+            out.append({"name": rng.choice(["results", "__pycache__", "data"]), "kind": "dir", "children": [{"name": "old.txt", "text": "x\n"}]})
+        elif k == "default":
+            out.append({"name": "default", "kind": "dir", "children": [{"name": "settings.yaml", "text": "qha:\n  settings:\n    NT: 3\n"}]})
+        elif k == "inputs" and world["datadir"] != world["cwd"]:
+            for fn in (world["settings_name"], world["settings"]["qha"]["input"], world["settings"]["elast"]["input"]):
+                out.append({"name": fn, "kind": "file", "text": "garbage in the cwd, the real one lives in the data directory\n"})
+        elif k == "othersys":
+            out.append({"name": rng.choice([x for x in SYSTEM_NAMES if x != system]), "kind": "dir"})
+    seen, uniq = [], []
+    for c in out:
+        if c["name"] not in seen:
+            seen.append(c["name"])
+            uniq.append(c)
+    return uniq
+
+
+def gen_program(rng, prop, name, world, tier, no_chdir=False):
     big = tier == "thorough"
     h0 = name.lower() + "0"
     prog = []
@@ -152,13 +185,40 @@ def gen_program(rng, prop, name, world, tier):
         n_ops = rng.randint(3, 12 if big else 9)
         prog.append(_calc_new(h0, rng, valid))
         handles = [h0]
-        w_ops = {"C14": {"read": 5, "write": 2, "writevars": 2, "run": 1, "new": 1, "mutate": 1, "fill": 1, "io": 1, "static": 1},
-                 "C15": {"read": 1, "write": 4, "writevars": 4, "run": 2, "new": 1, "mutate": 1, "fill": 0},
-                 "C19": {"read": 0, "write": 3, "writevars": 3, "run": 1, "new": 0, "mutate": 0, "fill": 0}}[prop]
+        w_ops = {"C14": {"read": 5, "write": 2, "writevars": 2, "run": 1, "new": 1, "mutate": 1, "fill": 1, "io": 1, "static": 1, "chdir": 1, "clutter": 1, "drop": 1},
+                 "C15": {"read": 1, "write": 4, "writevars": 4, "run": 2, "new": 1, "mutate": 1, "fill": 0, "chdir": 1, "drop": 1},
+                 "C19": {"read": 0, "write": 3, "writevars": 3, "run": 1, "new": 0, "mutate": 0, "fill": 0, "chdir": 1, "clutter": 1}}[prop]
         kinds = [k for k, wgt in w_ops.items() for _ in range(wgt)]
         recent_reads = []
+        dirs = [world["cwd"]]
+        cur_dir = world["cwd"]
         for _ in range(n_ops):
             k = rng.choice(kinds)
+            if k == "chdir":
+                if no_chdir:
+                    continue
+                r = rng.random()
+                if r < 0.45 or len(dirs) == 1:
+                    to = rng.choice([f"{world['cwd']}/sub{len(dirs)}", f"w{name.lower()}_alt{len(dirs)}", f"{world['cwd']}/out/run{len(dirs)}"])
+                    dirs.append(to)
+                else:
+                    to = rng.choice(dirs)
+                prog.append({"op": "env.chdir", "to": to})
+                cur_dir = to
+                continue
+            if k == "clutter":
+                prog.append({"op": "env.clutter", "entries": gen_mid_clutter(rng, world)})
+                continue
+            if k == "drop":
+                if len(handles) > 1 or rng.random() < 0.5:
+                    hd = rng.choice(handles)
+                    handles.remove(hd)
+                    prog.append({"op": "calc.drop", "h": hd})
+                    if not handles:
+                        hn = name.lower() + "n" + str(len(prog))
+                        handles.append(hn)
+                        prog.append(_calc_new(hn, rng, valid))
+                continue
             h = rng.choice(handles)
             if k == "read":
                 if recent_reads and rng.random() < 0.3:
@@ -175,7 +235,7 @@ def gen_program(rng, prop, name, world, tier):
             elif k == "run":
                 prog.append({"op": "cli.run", "abs": rng.random() < 0.6, "expect_ok": valid})
             elif k == "new":
-                hn = name.lower() + str(len(handles))
+                hn = name.lower() + "h" + str(len(prog))
                 handles.append(hn)
                 prog.append(_calc_new(hn, rng, valid))
             elif k == "mutate":
@@ -209,7 +269,11 @@ def gen_program(rng, prop, name, world, tier):
                     prog.append({"op": "cli.refill", "system": world["static"]["system"], "src": "f0", "store": "f1", "flags": [],
                                  "expect_ok": world["static"]["cli_ok"]})
         if prop == "C19":
-            prog += gen_extract_ops(rng, name, world, tier, prog)
+            if cur_dir != world["cwd"] and rng.random() < 0.5:
+                prog.append({"op": "env.chdir", "to": world["cwd"]})     # back home, where the earlier tables (and the stub tables) are
+                prog += gen_extract_ops(rng, name, world, tier, [o for o in prog if o["op"] != "env.chdir"])
+            else:
+                prog += gen_extract_ops(rng, name, world, tier, prog)
         elif prop == "C14" and rng.random() < 0.4:
             prog += gen_extract_ops(rng, name, world, tier, prog)[:2]
         return prog
@@ -322,7 +386,8 @@ def tp_variables(world, prog):
     rules = {kw: r for r in W.rules()["rules"] for kw in r["keywords"]}
     out = []
     eff = W.effective_output(world)
-    for op in prog:
+    last_cd = max([k for k, o in enumerate(prog) if o["op"] == "env.chdir"] + [-1])
+    for op in prog[last_cd + 1:]:
         entries = []
         if op["op"] in ("calc.write", "cli.run"):
             if op.get("vars") is None:
@@ -589,7 +654,7 @@ def gen_scenario(prop, seed, tier, faults_enabled=None, nclients=None, segments_
             if worlds[n]["datadir"] == worlds[n]["cwd"]:
                 worlds[n]["datadir"] = "d" + n.lower()
             worlds[n]["cwd"] = "ws"
-    programs = {n: gen_program(rng, prop, n, worlds[n], tier) for n in names}
+    programs = {n: gen_program(rng, prop, n, worlds[n], tier, no_chdir=bool(segments)) for n in names}
     if segments:
         for p in programs.values():     # the cwd is process-global and shared inside a segment: settings by absolute path
             for op in p:
